@@ -124,6 +124,53 @@ def seeded_check(c, fs, attempts=3):
 SEEDING = True
 
 
+def generic_model(c, fs, prefer=None):
+    """a model of fs whose input values are as GENERIC as the constraints allow (for the replay of a path that died):
+    every real input is pinned to a pseudo-random dyadic value if that keeps fs satisfiable, otherwise it is at least
+    asked not to be an integer.  Special values (0, integers) hide defects such as a lossy integer buffer."""
+    r, s = seeded_check(c, fs, attempts=2)
+    if r != "sat" or c is None:
+        return r, s
+    reals = [(name, var) for name, (kind, var) in c.inputs.items() if kind == "real"]
+    if len(reals) > 40:
+        return r, s
+    m = s.model()
+    generic = prefer is None
+    for name, var in reals:
+        try:
+            v = m.eval(var, model_completion=True)
+            if z3.is_rational_value(v) and v.denominator_as_long() == 1:
+                generic = False
+                break
+        except z3.Z3Exception:
+            pass
+    if generic:
+        return r, s
+    extra = []
+    small = dict(rlimit=max(RLIMIT // 50, 100_000), timeout=3000)
+    for name, var in reals:
+        lo, hi = c.boxes.get(name, (None, None))
+        pinned = False
+        for k in (0, 1):
+            cand = var == z3.RealVal(str(_seed_value(name, k + c.seed_shift, lo, hi)))
+            if check(fs + extra + [cand], **small)[0] == "sat":
+                extra.append(cand)
+                pinned = True
+                break
+        if not pinned and prefer == "neg":
+            # second replay model of a dying path: inputs that cannot take a generic value are asked to be negative
+            # (constrained inputs such as a point of the unit circle otherwise come back from one half only)
+            cand = var < 0
+            if check(fs + extra + [cand], **small)[0] == "sat":
+                extra.append(cand)
+        if not pinned:
+            cand = z3.ToReal(z3.ToInt(var)) != var
+            if check(fs + extra + [cand], **small)[0] == "sat":
+                extra.append(cand)
+    r2, s2 = check(fs + extra)
+    return (r2, s2) if r2 == "sat" else (r, s)
+
+
 class Ctx:
     def __init__(self, prefix=(), done=(), check_last=False):
         self.prefix = list(prefix)
